@@ -1,7 +1,7 @@
 (* Pins the C06 statements and prints what they depend on. Compiled on every run. *)
 From Coq Require Import String.
 From VP Require Import Base.Tactics Zdd.Model Zdd.Run Zdd.ProofsBase Zdd.ProofsOps Zdd.ProofsPwo Zdd.ProofsPwoTotal
-  Zdd.ProofsQuery Zdd.ProofsArena Zdd.ProofsSeq Zdd.ProofsStandalone Zdd.Props.
+  Zdd.ProofsQuery Zdd.ProofsArena Zdd.ProofsSeq Zdd.ProofsStandalone Zdd.ProofsProduct Zdd.ProofsProductTotal Zdd.Props.
 Close Scope string_scope.
 Open Scope list_scope.
 
@@ -29,6 +29,12 @@ Check (C06_standalone_extend_optional : forall x v, zwf x ->
   exists z, z_pwo x v = Some z /\ zwf z /\ forall s, zmem z s <-> PW v (zmem x) s).
 Check (C06_standalone_from_set : forall l, zwf (z_from_set l) /\ forall s, zmem (z_from_set l) s <-> s = norm_set l).
 Check (C06_standalone_singleton : forall v, zwf (z_single v) /\ forall s, zmem (z_single v) s <-> s = [v]).
+Check (C06_standalone_product : forall x y, zwf x -> zwf y ->
+  exists z, z_product x y = Some z /\ zwf z /\ forall s, zmem z s <-> PROD (zmem x) (zmem y) s).
+Check (eq_refl : PROD = fun A B s => exists x y, A x /\ B y /\ s = merge x y).
+Check (merge_cons_lt : forall x a b, Forall (fun y => (x < y)%N) b -> merge (x :: a) b = x :: merge a b).
+Check (merge_cons_eq : forall x a b, merge (x :: a) (x :: b) = x :: merge a b).
+Check (merge_comm : forall a b, merge a b = merge b a).
 (* the explicit semantics the theorems refer to, pinned too *)
 Check (eq_refl : spec_step = fun fs o =>
   match o with
@@ -58,3 +64,4 @@ Print Assumptions C06_standalone_difference.
 Print Assumptions C06_standalone_extend_optional.
 Print Assumptions C06_standalone_from_set.
 Print Assumptions C06_standalone_singleton.
+Print Assumptions C06_standalone_product.
